@@ -330,4 +330,44 @@ def callHttp (q r : Nat) (req rep : List Op) : CallOut :=
   | some _ =>
     if 0 < r ∧ r < opsSize rep then ⟨true, some .responseTooLarge⟩ else ⟨true, none⟩
 
+/-! ### The request's registration (fNatsTransport.Request)
+
+`Request` registers the context's op id in the transport's registry before the size check and
+removes it on every exit (`defer Unregister` right after `Register`). A registration that
+survived a rejected request would make the next request with the same FContext fail
+("context already registered"), however small. -/
+
+/-- `fNatsTransport.Request(ctx, data)` with `L` = the transport's limit, as far as the
+registry and the caller's outcome are concerned. `reg` = op ids registered before the call,
+`size` = `len(data)`, `replied` = a reply arrives before the context's timeout.
+Returns the registry after the call and the caller's outcome (`none` = a reply / nil). -/
+def regRequest (L : Nat) (reg : List Nat) (opid size : Nat) (replied : Bool) : List Nat × Option CallErr :=
+  if size = 4 then (reg, none)                               -- nothing to send
+  else if opid ∈ reg then (reg, some .other)                 -- Register fails: "context already registered"
+  else
+    let reg' := opid :: reg                                  -- Register; defer Unregister
+    if 0 < L ∧ L < size then (reg'.erase opid, some .requestTooLarge)   -- checkMessageSize
+    else (reg'.erase opid, if replied then none else some .timedOut)   -- PublishRequest, wait
+
+/-- `Oneway`: no registration at all. -/
+def regOneway (L : Nat) (reg : List Nat) (size : Nat) : List Nat × Option CallErr :=
+  if size = 4 then (reg, none)
+  else if 0 < L ∧ L < size then (reg, some .requestTooLarge)
+  else (reg, none)
+
+/-- One step of a sequence of uses of one transport. -/
+structure SeqStep where
+  opid : Nat
+  size : Nat
+  oneway : Bool
+  deriving Repr, DecidableEq
+
+/-- A sequence of requests on one transport (every published request is answered): per step
+the caller's outcome and the registry size afterwards. -/
+def runSeq (L : Nat) : List Nat → List SeqStep → List (Option CallErr × Nat)
+  | _, [] => []
+  | reg, st :: t =>
+    let r := if st.oneway then regOneway L reg st.size else regRequest L reg st.opid st.size true
+    (r.2, r.1.length) :: runSeq L r.1 t
+
 end FV
